@@ -530,7 +530,7 @@ def jobs(tier):
     q = tier == 'quick'
     js = []
     ml = mlstubs.ml_shims()
-    kw = dict(validate=(5 if q else 2), timeout_ms=30000, budget_s=(300 if q else 1500), extra_shims=ml)
+    kw = dict(validate=(5 if q else 2), timeout_ms=30000, budget_s=(600 if q else 3000), extra_shims=ml)
     for d, m in ([(1, 2), (2, 2), (1, 3)] if q else [(1, 2), (2, 2), (1, 3), (2, 3), (3, 2), (1, 4)]):
         for mat in ('C', 'I'):
             js.append(Job('construct[d=%d,m=%d,%s]' % (d, m, mat), construct, {'d': d, 'm': m, 'matrix': mat}, hash_mode='normal_form', **kw))
